@@ -33,6 +33,8 @@ type Config struct {
 	Fallback   string // fallback solver kind ("" = none)
 	ModelGuide bool
 	NoSnapshot bool
+	TraceFn    string
+	DebugModel map[string]uint64
 }
 
 type Obligation struct {
@@ -145,6 +147,9 @@ func (e *Explorer) push(prefix []int) {
 func (e *Explorer) pushOnce(prefix []int) {
 	h1, h2 := uint64(14695981039346656037), uint64(0x9E3779B97F4A7C15)
 	for _, d := range prefix {
+		if d == -1 {
+			break // sleep-set payload is not part of the identity of a prefix
+		}
 		x := uint64(d) + 0x9E37
 		h1 = (h1 ^ x) * 1099511628211
 		h2 = (h2 + x + 0x632BE59BD9B4E019) * 0xD1342543DE82EF95
@@ -366,6 +371,14 @@ func (e *Explorer) newState(solver *Solver) *State {
 }
 
 func (e *Explorer) runPath(solver *Solver, fbs []*Solver, prefix []int) {
+	var sleepInit []int
+	for i, d := range prefix {
+		if d == -1 {
+			sleepInit = append([]int{}, prefix[i+1:]...)
+			prefix = prefix[:i]
+			break
+		}
+	}
 	var s *State
 	resume := false
 	if sn := e.findSnapshot(prefix); sn != nil && !e.Cfg.NoSnapshot {
@@ -382,6 +395,13 @@ func (e *Explorer) runPath(solver *Solver, fbs []*Solver, prefix []int) {
 	}
 	s.fallbacks = fbs
 	s.forced = prefix
+	s.sleepInit = sleepInit
+	if s.sleep == nil {
+		s.sleep = map[int]bool{}
+	}
+	if s.dpos == len(s.forced) {
+		s.prefixConsumed()
+	}
 	solver.Push()
 	status, msg := "ok", ""
 	func() {
